@@ -326,13 +326,17 @@ class PurificationRBM(nn.Module):
         """
         v = (initial_state if overwrite else initial_state.clone()).to(self.weights_W)
 
-        h = torch.zeros(*v.shape[:-1], self.num_hidden).to(self.weights_W)
-        a = torch.zeros(*v.shape[:-1], self.num_aux).to(self.weights_W)
+        # a single (1-D) state is updated through a 2-D view of the same memory, so
+        # that the in-place `out=` writes below never resize (and re-stride) it
+        v_ = v.unsqueeze(0) if v.dim() < 2 else v
+
+        h = torch.zeros(*v_.shape[:-1], self.num_hidden).to(self.weights_W)
+        a = torch.zeros(*v_.shape[:-1], self.num_aux).to(self.weights_W)
 
         for _ in range(k):
-            self.sample_h_given_v(v, out=h)
-            self.sample_a_given_v(v, out=a)
-            self.sample_v_given_ha(h, a, out=v)
+            self.sample_h_given_v(v_, out=h)
+            self.sample_a_given_v(v_, out=a)
+            self.sample_v_given_ha(h, a, out=v_)
 
         return v
 
